@@ -108,5 +108,5 @@ package block
 //@   modifies *
 //@   opt no-callee-pre
 //@   opt inline-none
-//@   callpre ReadSeeker.Seek#0: offset == 0 && whence == 1
-//@   callpre ReadSeeker.Seek#1: offset == pos && whence == 0
+//@   callpre ReadSeeker.Seek: (ghost(seek_n) == old(ghost(seek_n)) ==> offset == 0 && whence == 1) && (ghost(seek_n) != old(ghost(seek_n)) ==> offset == ghost(seek_res) && whence == 0)
+//@   ensures [restored] err == nil && ghost(seek_n) != old(ghost(seek_n)) ==> ghost(seek_n) == old(ghost(seek_n)) + 2 && ghost(seek_whence) == 0
